@@ -90,6 +90,15 @@ fn keys_universe(thorough: bool) -> Vec<&'static str> {
 fn values_universe(thorough: bool) -> Vec<Vec<u8>> {
     let all: Vec<u8> = (0..=255u8).collect();
     let comp: Vec<u8> = b"abc".iter().cycle().take(300).cloned().collect();
+    // 96 KiB of poorly compressible bytes (sha256 chain): slices far into a large compressed stream
+    let mut big: Vec<u8> = vec![];
+    let mut h = crate::world::sha_hex(b"seed");
+    while big.len() < 96 * 1024 {
+        big.extend_from_slice(h.as_bytes());
+        h = crate::world::sha_hex(h.as_bytes());
+    }
+    // (the large value is not part of the BFS alphabet: it is exercised by large_value_pass)
+    let _ = big;
     if thorough {
         vec![vec![], vec![0x7b], all, comp]
     } else {
@@ -109,7 +118,15 @@ fn slices(len: usize) -> Vec<(usize, usize)> {
             }
         }
     } else {
-        for (o, l) in [(0, 1), (0, len), (1, len - 1), (len - 1, 1), (len / 2, 1), (len / 2, len - len / 2), (7, 13), (0, 16), (len - 16, 16), (1, 1), (255.min(len - 1), 1)] {
+        let mut cand = vec![(0, 1), (0, len), (1, len - 1), (len - 1, 1), (len / 2, 1), (len / 2, len - len / 2), (7, 13), (0, 16), (len - 16, 16), (1, 1), (255.min(len - 1), 1)];
+        // a grid of positions for large values (block / buffer boundaries of the compressors)
+        let mut o = 4096;
+        while o + 64 <= len {
+            cand.push((o - 1, 64));
+            cand.push((o, 1));
+            o += 4096;
+        }
+        for (o, l) in cand {
             if l >= 1 && o + l <= len {
                 v.push((o, l));
             }
@@ -285,6 +302,43 @@ fn adapter_bfs(rep: &mut Report, thorough: bool) {
     rep.push_sample(json!({"adapter_sequence": ["write(1-aaaa.delta, 256 bytes)", "reopen", "write(1-aaaa.delta, 1 bytes)", "observe: whole reads, every slice, listings \"\"/.delta/.pack"]}));
 }
 
+fn big_value() -> Vec<u8> {
+    let mut big: Vec<u8> = vec![];
+    let mut h = crate::world::sha_hex(b"seed");
+    while big.len() < 96 * 1024 {
+        big.extend_from_slice(h.as_bytes());
+        h = crate::world::sha_hex(h.as_bytes());
+    }
+    big
+}
+
+/// one large, poorly compressible value on every backend: whole read, boundary slices and a grid of
+/// slices across the whole value (buffer boundaries of the compressing wrappers), before and after reopen
+fn large_value_pass(rep: &mut Report) {
+    let keys = ["1-aaaa.delta", "ffee.pack"];
+    let vals = vec![big_value(), vec![0x7b]];
+    let mut runs = 0u64;
+    for b in [Base::Memory, Base::Dir, Base::SqliteFile, Base::SqliteMem] {
+        for w in [Wrap::Plain, Wrap::Flate, Wrap::Brotli] {
+            let mut seqs = vec![vec![AOp::Write(1, 0)], vec![AOp::Write(0, 0), AOp::Write(0, 1), AOp::Write(1, 1)]];
+            if persistent(b) {
+                seqs.push(vec![AOp::Write(1, 0), AOp::Reopen, AOp::Write(1, 1)]);
+            }
+            for s in seqs {
+                runs += 1;
+                match run_seq(b, w, &s, &keys, &vals) {
+                    Ok(n) => rep.add_u64("evaluations", n),
+                    Err(mut d) => {
+                        d["input"] = json!({"backend": format!("{:?}+{:?}", b, w), "operations": seq_text(&s, &keys, &vals)});
+                        rep.violations.push(Violation { property: "C17".into(), signature: format!("C17:{:?}+{:?}:large-value:{}", b, w, d["error"].as_str().unwrap_or("?")), scenario: "large-value".into(), history: vec![], detail: d });
+                    }
+                }
+            }
+        }
+    }
+    rep.set("large_value_pass", json!({"value_bytes": vals[0].len(), "sequences": runs}));
+}
+
 /// the same replica history over every backend must give the same views
 fn replica_histories(rep: &mut Report, thorough: bool) {
     let m = menu(arr_docs());
@@ -411,6 +465,7 @@ fn run_history_on(b: Base, w: Wrap, m: &Arc<Menu>, h: &[Op]) -> Result<Vec<Value
 pub fn run(thorough: bool) {
     let mut rep = Report::new("C17", if thorough { "thorough" } else { "quick" }, "model_checking");
     adapter_bfs(&mut rep, thorough);
+    large_value_pass(&mut rep);
     replica_histories(&mut rep, thorough);
     let _ = std::fs::remove_dir_all(scratch());
     rep.set("distinct_nontrivial", rep.coverage.get("states").cloned().unwrap_or(json!(0)));
